@@ -58,6 +58,8 @@ type SpecFunc struct {
 type SpecParam struct{ Name, Type string }
 
 type Lemma struct {
+	Params []SpecParam // free variables of a parameterised lemma: lemma name(p int, q int): ...
+	Inst  string // axiom instantiated at every ground application of this spec function
 	Axiom bool
 	Name  string
 	Props []string
@@ -80,7 +82,7 @@ type ContractSet struct {
 var clauseKeywords = map[string]bool{
 	"requires": true, "ensures": true, "loop": true, "assigns": true, "reads": true,
 	"nopanic": true, "maypanic": true, "pure": true, "opaque": true, "inline": true, "trusted": true, "heapfree": true, "overflow": true,
-	"let": true, "mode": true, "assume": true, "havoc": true, "exceptional": true,
+	"let": true, "mode": true, "atcall": true, "assume": true, "havoc": true, "exceptional": true,
 }
 
 var headRe = regexp.MustCompile(`^(func|interface|field|extern|spec|lemma|table|axiom|trace)\b`)
@@ -178,6 +180,18 @@ func (cs *ContractSet) LoadContractFile(path, pkgPath string) error {
 					return fmt.Errorf("%s:%d: lemma needs 'name: expr'", path, ln)
 				}
 				lm := &Lemma{Axiom: hm == "axiom", Name: strings.TrimSpace(rest2[:i]), Props: props, Text: strings.TrimSpace(rest2[i+1:]), Pkg: pkgPath, File: path, Line: ln}
+				if fs := strings.Fields(lm.Name); len(fs) == 3 && fs[1] == "inst" {
+					lm.Name, lm.Inst = fs[0], fs[2]
+				}
+				if k := strings.Index(lm.Name, "("); k > 0 && strings.HasSuffix(lm.Name, ")") {
+					for _, p := range strings.Split(lm.Name[k+1:len(lm.Name)-1], ",") {
+						pf := strings.Fields(strings.TrimSpace(p))
+						if len(pf) == 2 {
+							lm.Params = append(lm.Params, SpecParam{pf[0], pf[1]})
+						}
+					}
+					lm.Name = lm.Name[:k]
+				}
 				cs.Lemmas = append(cs.Lemmas, lm)
 				curLemma = lm
 			case "trace":
